@@ -206,6 +206,10 @@ func (s *script) pureAck(kind int) bool {
 		ack = s.maxEnd + 1 + uint32(s.r.Intn(5000))
 	case 4: // old
 		ack = una - 1 - uint32(s.r.Intn(3000))
+	case 6: // everything but the last sequence number in flight (the FIN, or the last data byte)
+		if int32(s.maxEnd-una) > 1 {
+			ack = s.maxEnd - 1
+		}
 	case 5: // segment boundary ack: ack the first outstanding segment only
 		st := s.c.Snap()
 		if len(st.WriteList) > 0 {
@@ -378,9 +382,14 @@ func (s *script) event() bool {
 		case x < 15:
 			s.count("write")
 			return s.write()
-		case x < 35:
+		case x < 27:
 			s.count("ack-cumulative")
 			return s.pureAck(0)
+		case x < 35:
+			// tail loss: everything queued may already have been sent once; the rest (the last
+			// segment or the FIN) stays in flight and only the retransmission timer can recover it
+			s.count("ack-partial")
+			return s.pureAck([]int{1, 5, 6}[s.r.Intn(3)])
 		case x < 55:
 			s.count("peer-data")
 			return s.peerData(s.r.Intn(3))
@@ -464,6 +473,13 @@ func runScript(seed uint64, idx int, mix string, nev int, kinds map[string]int) 
 	}
 	if r.Intn(3) == 0 {
 		cfg.PeerWS = r.Intn(4)
+	}
+	if mix == "c04" && r.Intn(3) == 0 {
+		// a small window in the SYN-ACK itself (never scaled, RFC 7323 2.2), usually with a scale
+		cfg.PeerWnd = []uint16{0, 100, 1000, 5000}[r.Intn(4)]
+		if r.Intn(4) != 0 {
+			cfg.PeerWS = 1 + r.Intn(3)
+		}
 	}
 	cfg.PeerTS = r.Intn(4) == 0
 	cfg.PeerSACK = r.Intn(3) == 0
@@ -566,7 +582,7 @@ func runScript(seed uint64, idx int, mix string, nev int, kinds map[string]int) 
 	if cfg.V6 {
 		v6 = 1
 	}
-	line := fmt.Sprintf("CTrace [%d;%d;%d;%d;%d] %s %s [%s]", c.ISS, c.IRS, cfg.PeerMSS, cfg.MTU, v6, tcpx.ZL(s.peer), tcpx.CoqState(init), strings.Join(s.steps, ";"))
+	line := fmt.Sprintf("CTrace [%d;%d;%d;%d;%d;%d;(%d)] %s %s [%s]", c.ISS, c.IRS, cfg.PeerMSS, cfg.MTU, v6, cfg.PeerWnd, cfg.PeerWS, tcpx.ZL(s.peer), tcpx.CoqState(init), strings.Join(s.steps, ";"))
 	c.EP.Close()
 	return line, nil
 }
